@@ -122,8 +122,8 @@ def inv (p a : Int) : Int :=
   let r := (k.euclid a (k.toE p)).1
   if r < 0 then k.toE (k.arE (r + k.toE p)) else r
 
-/-- div(r,a,b) = mulin(inv(r,b),a) ; divin(r,a) = mulin(r, inv(ia,a)) -/
-def div (p a b : Int) : Int := k.mul p (k.inv p b) a
+/-- div(r,a,b): `Element ib; return mul(r, a, inv(ib, b))` ; divin(r,a) = mulin(r, inv(ia,a)) -/
+def div (p a b : Int) : Int := k.mul p a (k.inv p b)
 def divin (p r a : Int) : Int := k.mul p r (k.inv p a)
 
 /-- isUnit (modular-implem.h:207) -/
@@ -290,7 +290,7 @@ def inv (p y : Int) : Option Int := do
 
 def div (p y z : Int) : Option Int := do
   let i ← k.inv p z
-  k.mul p i y
+  k.mul p y i
 
 def divin (p x y : Int) : Option Int := do
   let i ← k.inv p y
@@ -445,31 +445,6 @@ def axmyin (p r a b : Int) : Int := neg p ((r - a * b) % p)
 def reduce (p a : Int) : Int := let r := Int.tmod a p; if r < 0 then r + p else r
 end ZMod'
 
-/-! ## (f) `Modular<ruint<K>[,ruint<K+1>]>` (modular-ruint.inl) over arithmetic modulo `2^(2^K)` -/
-structure RCfg where
-  n : Nat          -- bits of Storage_t
-  wide : Bool      -- Compute_t = ruint<K+1>
-deriving DecidableEq, Repr
-
-namespace RCfg
-variable (k : RCfg)
-def w (x : Int) : Int := wrapUw k.n x
-def w2 (x : Int) : Int := wrapUw (2 * k.n) x
-/-- ruint<K>::maxCardinality() = 2^(2^(K-1)) ; max_pow_two = 2^(2^K-1) -/
-def maxCard : Int := if k.wide then (2 : Int) ^ (k.n - 1) else (2 : Int) ^ (k.n / 2)
-/-- `_mul`: lmul into the wide type (exact) or mul in the same type (wraps), then mod_n -/
-def mul (p a b : Int) : Int := if k.wide then k.w (k.w2 (a * b) % p) else k.w (a * b) % p
-def sub (p a b : Int) : Int := if a < b then k.w (k.w (p - b) + a) else k.w (a - b)
-def add (p a b : Int) : Int := let r := k.w (a + b); if r ≥ p then k.w (r - p) else r
-def neg (p a : Int) : Int := if a = 0 then 0 else k.w (p - a)
-def axpy (p a b c : Int) : Int :=
-  if k.wide then let r := k.w (k.mul p a b + c); if r ≥ p then k.w (r - p) else r
-  else k.w (c + a * b) % p
-def maxpy (p a b c : Int) : Int := k.sub p c (k.mul p a b)
-def axmy (p a b c : Int) : Int := k.sub p (k.mul p a b) c
-def maxpyin (p r a b : Int) : Int :=
-  if k.wide then k.sub p r (k.mul p a b)
-  else k.neg p (k.w (k.neg p r + a * b) % p)
-end RCfg
+/-! (f) `Modular<ruint<K>[,ruint<K+1>]>` and `Modular<rint<K>>`: Model/ModRingRecInt.lean -/
 
 end Givaro.Model.ModRing
